@@ -429,20 +429,34 @@ func (api *DatabaseAPI) registerSub(opID []byte, q *query.Query) (sub *database.
 		return nil, false
 	}
 
-	// Save subscription, so that it can be cancelled from now on.
+	// Save subscription, so that it can be cancelled from now on. An operation
+	// ID stands for one subscription: a subscription that is still active
+	// would otherwise go on under that ID with nobody able to cancel it.
 	api.subsLock.Lock()
-	api.subs[string(opID)] = sub
+	_, inUse := api.subs[string(opID)]
+	if !inUse {
+		api.subs[string(opID)] = sub
+	}
 	api.subsLock.Unlock()
+
+	if inUse {
+		_ = sub.Cancel()
+		api.send(opID, dbMsgTypeError, "operation ID is in use by an active subscription", nil)
+		return nil, false
+	}
 
 	return sub, true
 }
 
 func (api *DatabaseAPI) processSub(opID []byte, sub *database.Subscription) {
-	// Remove subscription after it ended.
+	// Remove subscription after it ended (the ID may have been taken by a new
+	// subscription already).
 	defer func() {
 		api.subsLock.Lock()
 		defer api.subsLock.Unlock()
-		delete(api.subs, string(opID))
+		if api.subs[string(opID)] == sub {
+			delete(api.subs, string(opID))
+		}
 	}()
 
 	for {
